@@ -157,7 +157,7 @@ theorem body_step (c : CallSt) (b : BPos) (hb : b.good) (hr : c.reader = some b.
       rw [htake, hread]
       refine ⟨.chunk r1, n1, o1, rfl, ⟨hwf1, hrest1⟩, hn1, hd1, hp1, by omega, rfl, ?_⟩
       intro h1 h2 _
-      exact hlive (by simp; omega) h2 he
+      exact hlive (by simp; omega) (Or.inl h2) he
 
 theorem BPos.payload_nil (b : BPos) (hb : b.good) (he : b.enc = []) : b.payload = [] := by
   cases b with
